@@ -62,6 +62,7 @@ InitState(s) == [hs |-> 0,
                  nout |-> 0,        \* s.nonce
                  seen |-> {},       \* replay filter contents
                  nsent |-> 0,
+                 rdseen |-> FALSE,  \* initiator: a RespDone was consumed (a session completed by data never consumed one)
                  dead |-> FALSE]    \* the Noise handshake state was consumed by a message that was then rejected
 
 Init == /\ st = [s \in Sess |-> InitState(s)]
@@ -125,7 +126,7 @@ ReadHandshake(s, v, m) ==
         ELSE Err(v)
     ELSE IF Role[s] = "init" /\ v.hs = 2 /\ m.n = 3 THEN
         IF m.t = "RD" /\ m.ref = v.rh
-        THEN LET v2 == [v EXCEPT !.hs = 4, !.nout = NoncePost]
+        THEN LET v2 == [v EXCEPT !.hs = 4, !.nout = NoncePost, !.rdseen = TRUE]
              IN R3(v2, "hs", HsMsg(s, v2), 0)
         ELSE Err(v)
     ELSE IF (Role[s] = "init" /\ m.n % 2 = 1) \/ (Role[s] = "resp" /\ m.n % 2 = 0) THEN
@@ -134,7 +135,7 @@ ReadHandshake(s, v, m) ==
            \/ (Role[s] = "resp" /\ m.n = 0 /\ v.hs >= 1 /\ m = v.ih)
            \/ (Role[s] = "init" /\ m.n = 1 /\ v.hs >= 2 /\ m = v.rh)
            \/ (Role[s] = "resp" /\ m.n = 2 /\ v.hs >= 3 /\ m = v.idm)
-           \/ (Role[s] = "init" /\ m.n = 3 /\ v.hs >= 4 /\ m.t = "RD" /\ m.ref = v.rh)
+           \/ (Role[s] = "init" /\ m.n = 3 /\ v.hs >= 4 /\ v.rdseen /\ m.t = "RD" /\ m.ref = v.rh)
         THEN R3(v, "hs", HsMsg(s, v), 0)
         ELSE Err(v)
     ELSE Err(v)
